@@ -35,7 +35,7 @@
 (*     information for query resolution (#6610)".                          *)
 (*   * doc comments of processDNSResultRewrites ("A rewrite of a host to   *)
 (*     itself.  Go on and try matching other things"), of                  *)
-(*     urlfilter.(*DNSResult).DNSRewrites (exception logic) and of         *)
+(*     urlfilter DNSResult.DNSRewrites (exception logic) and of         *)
 (*     removeMatchingException ("$important,dnsrewrite disables all",      *)
 (*     "do not match important rules unless the exception is important").  *)
 (*                                                                         *)
@@ -279,7 +279,6 @@ SkipOutcomes(cfg, rq) ==
         AsRw(e) == [e EXCEPT !.kind = "block", !.rw = IF e.rw.k = "empty" THEN NoErrorRw ELSE e.rw]
     IN IF Cardinality(ex) < 2 THEN {}
        ELSE UNION {
-              LET m2 == (m \ Sk) \cup {AsRw(e) : e \in Sk} IN
               UNION {FromSurvivors(S \cup {AsRw(e) : e \in Sk}, cfg, rq)
                      : S \in Survivors(m \ Sk)}
             : Sk \in (SUBSET ex) \ {{}, ex}}
